@@ -478,7 +478,11 @@ impl BuildJob<'_> {
             None,
         );
         let state = ptx.commit().map_err(RedoError::opaque_error)?;
+        let fid = self.lock.file_id();
         let job = server.start(self.t.into_string(), || {
+            // We keep holding the target's lock while redo-unlocked runs,
+            // so anything below it that asks for the target is a cycle.
+            cycles::add(fid.to_string());
             env::set_var(ENV_DEPTH, {
                 let mut depth = state.env().depth().to_string();
                 depth.push_str("  ");
